@@ -533,14 +533,32 @@ impl FormatSpec {
                 magnitude if magnitude.is_nan() => Ok("nan".to_owned()),
                 magnitude if magnitude.is_infinite() => Ok("inf".to_owned()),
                 _ => match self.precision {
-                    Some(precision) => Ok(float::format_general(
-                        precision,
-                        magnitude,
-                        Case::Lower,
-                        self.alternate_form,
-                        true,
-                    )),
-                    None => Ok(float::to_string(magnitude)),
+                    Some(precision) => {
+                        // like 'g' (a precision of 0 counts as 1), except that fixed-point
+                        // notation always has at least one digit past the decimal point
+                        let precision = if precision == 0 { 1 } else { precision };
+                        let mut general = float::format_general(
+                            precision,
+                            magnitude,
+                            Case::Lower,
+                            self.alternate_form,
+                            true,
+                        );
+                        if !general.contains(['.', 'e']) {
+                            general.push_str(".0");
+                        }
+                        Ok(general)
+                    }
+                    None => {
+                        let mut repr = float::to_string(magnitude);
+                        if self.alternate_form && !repr.contains('.') {
+                            // '#' keeps the decimal point: 1.e+16
+                            if let Some(exponent) = repr.find('e') {
+                                repr.insert(exponent, '.');
+                            }
+                        }
+                        Ok(repr)
+                    }
                 },
             },
         };
